@@ -422,6 +422,16 @@ class Interp:
             return [(True, p.fork(text)), (False, p.fork("not (" + text + ")"))]
         # ordering
         a, b = as_iv(lv), as_iv(rv)
+        # an unknown number compared with a numeric constant: treat it as the full float interval so the branches refine it
+        # (NaN compares false with everything; a NaN value therefore only ever travels along "false" branches, where the
+        # refined interval is not used to justify returning the value itself unless a later "true" comparison holds)
+        inf = float("inf")
+        if a is None and isinstance(lv, Opaque) and b is not None and b[0] == b[1]:
+            lv = FloatIv(-inf, inf)
+            a = as_iv(lv)
+        if b is None and isinstance(rv, Opaque) and a is not None and a[0] == a[1]:
+            rv = FloatIv(-inf, inf)
+            b = as_iv(rv)
         if a is None or b is None:
             return [(True, p.fork(text)), (False, p.fork("not (" + text + ")"))]
         strict = isinstance(op, (ast.Lt, ast.Gt))
